@@ -724,6 +724,26 @@ func (c *EvalCtx) evalCall(n ECall, want *Sort) (Val, error) {
 		}
 		x.birth()
 		return boolVal(and("(> "+v.L[0]+" 0)", "(> (birth "+v.L[0]+") "+c.old.now+")")), nil
+	case "ownfresh":
+		// allocated by the activation under verification (still private to it), or nil
+		v, err := arg(0, nil)
+		if err != nil {
+			return Val{}, err
+		}
+		x.birth()
+		own := or(eq(v.L[0], "0"), "(> (birth "+v.L[0]+") "+x.entryNow+")")
+		if x.rootSpec != nil && x.cur != nil {
+			root := x.cur
+			for root.caller != nil {
+				root = root.caller
+			}
+			for _, p := range x.rootSpec.UnderConstruction {
+				if pv, ok := root.params[p]; ok && len(pv.L) >= 1 {
+					own = or(own, eq(v.L[0], pv.L[0]))
+				}
+			}
+		}
+		return boolVal(own), nil
 	case "allocated":
 		v, err := arg(0, nil)
 		if err != nil {
